@@ -262,7 +262,10 @@ impl Number {
         self.to_string(false)
     }
 
-    pub(crate) fn to_string(self, is_compressed: bool) -> String {
+    /// Text of this number as seen by SassScript (`1px + "a"`, `rgb(1, .5, var(--x))`).
+    /// Like `Value::to_css_string` it never depends on the output style; only the
+    /// final serializer drops the leading zero in compressed mode.
+    pub(crate) fn to_string(self, _is_compressed: bool) -> String {
         if self.0.is_infinite() && self.0.is_sign_negative() {
             return "-Infinity".to_owned();
         } else if self.0.is_infinite() {
@@ -277,19 +280,11 @@ impl Number {
 
         let num = self.0.abs();
 
-        if is_compressed && num < 1.0 {
-            buffer.push_str(
-                format!("{:.10}", num)[1..]
-                    .trim_end_matches('0')
-                    .trim_end_matches('.'),
-            );
-        } else {
-            buffer.push_str(
-                format!("{:.10}", num)
-                    .trim_end_matches('0')
-                    .trim_end_matches('.'),
-            );
-        }
+        buffer.push_str(
+            format!("{:.10}", num)
+                .trim_end_matches('0')
+                .trim_end_matches('.'),
+        );
 
         if buffer.is_empty() || buffer == "-" || buffer == "-0" {
             return "0".to_owned();
